@@ -357,6 +357,12 @@ func (x *Exec) sprintf(st *State, c *callCtx) Term {
 	} else {
 		res = App(SStr, f, parts...)
 	}
+	if lit, ok := x.sym.LitValue(format.S); ok {
+		if x.sprintfFmt == nil {
+			x.sprintfFmt = map[string]string{}
+		}
+		x.sprintfFmt[res.S] = lit // remembered for statements built from a template (searchTemplate)
+	}
 	// a format with literal text besides its verbs never yields the empty string
 	if lit, ok := x.sym.LitValue(format.S); ok {
 		rest := lit
